@@ -107,14 +107,21 @@ def build(u, policy, collect_path=None, limited=None, display_real=False):
         return itx
 
     ctx.new_iterate = new_iterate
-    transform = u.obj("pygradflow.transform.Transformation", evaluator=ev, params=params, orig_problem=Opaque("user problem"), scaling=None, trans_problem=problem)
+    # the user's problem: its own number of variables (the transformed problem has that many plus the slacks) and
+    # the same number of constraint rows
+    n_user = u.int("user_n")
+    u.assume(n_user >= 0)
+    u.assume(n_user <= problem.fields["__n__"])
+    user_problem = mk_problem(u, n=n_user, m=problem.fields["num_cons"], name="user")
+    ctx.user_problem = user_problem
+    transform = u.obj("pygradflow.transform.Transformation", evaluator=ev, params=params, orig_problem=user_problem, scaling=None, trans_problem=problem)
     # the real Solver.__init__ runs (Transformation construction is seen through its contract, C04); afterwards the
     # state left behind by arbitrary earlier solves on the same object is havoced (C10: solve must not depend on it)
     u.it.abstract["pygradflow.transform.Transformation"] = lambda it, orig_problem, params_: transform
     callbacks = u.obj("pygradflow.callbacks.Callbacks")
     u.it.abstract["pygradflow.callbacks.Callbacks"] = lambda it: callbacks
-    solver = u.construct("pygradflow.solver.Solver", Opaque("user problem"), params)
-    havoc_persistent(u, solver, skip=(params, problem, transform, ev))
+    solver = u.construct("pygradflow.solver.Solver", user_problem, params)
+    havoc_persistent(u, solver, skip=(params, problem, transform, ev, user_problem))
     ctx.solver = solver
     # objects that exist before solve() is entered (anything created by __init__ or left by earlier solves)
     stack = [solver]
